@@ -56,6 +56,8 @@ type caseSpec struct {
 	Writers  []opSpec `json:"writers,omitempty"` // concurrent with the trigger / the tick, same virtual instant
 	Post     []opSpec `json:"post,omitempty"`    // sequential, after everything above has returned
 	Reopen   string   `json:"reopen"`            // idle | restart
+	Init     string   `json:"init,omitempty"`    // marker: disk | buffer | absent (state of the key before the sequence)
+	Seq      string   `json:"seq,omitempty"`     // marker: the sequence, W = write, D = Delete
 }
 
 const swampName = "c16/life/one"
@@ -913,6 +915,9 @@ func (x *runner) judge(obs map[string]observed) []finding {
 			cw = "removal"
 		}
 		sig := fmt.Sprintf("%s:%s:trigger=%s:%s:%s:role=%s:%s:write=%s", v.Clause, x.cs.Scen, t, forced, cw, v.Culprit.Role, same, wi)
+		if x.cs.Scen == "marker" {
+			sig = fmt.Sprintf("%s:marker:init=%s:ends=%s:write=%s", v.Clause, x.cs.Init, x.cs.Seq[len(x.cs.Seq)-1:], wi)
+		}
 		if v.Clause == "foreign-value" {
 			sig = fmt.Sprintf("%s:%s:trigger=%s:%s:keytype=%c:write=%s", v.Clause, x.cs.Scen, t, forced, k[0], wi)
 		}
